@@ -51,10 +51,15 @@ func (c split) Recv() ([]byte, error) {
 			continue // incomplete line
 		}
 		line := buf.Bytes()
-		if n := len(line) - 1; n >= 0 {
-			return line[:n], err
+		if err != nil {
+			// No delimiter was found (e.g., a partial final line at EOF).
+			// Report what we have without trimming.
+			if len(line) == 0 {
+				return nil, err
+			}
+			return line, err
 		}
-		return nil, err
+		return line[:len(line)-1], nil
 	}
 }
 
